@@ -173,6 +173,9 @@ func main() {
 			Key: "defaults:" + c.Key(), Kind: "defaults", Nontrivial: true,
 			Replay: map[string]interface{}{"api": "GetDefaults()", "name": string(c.Name), "rx2_frequency": d.RX2Frequency, "rx2_dr": d.RX2DataRate}})
 	}
+	// band objects after AddChannel histories (history.go)
+	rx1Histories(s, r, thorough, cfgs)
+
 	s.Exhaustive("RX1 data-rate: 56 configurations x uplink DR -2..16 x RX1 offset -2..9")
 	s.Exhaustive("GetDefaults: 56 configurations")
 	s.Exhaustive("RX1 channel: 56 configurations x every channel index -2..n+2 and every uplink frequency")
